@@ -149,6 +149,7 @@ class Histories(Part):
 
         con, f = mk(True)
         twin, tf = mk(False)
+        caps = []  # (Capture object, what it returned)
         mark = 0  # file offset of the last clearing export
         suspended = False
         full_color = cfg["color_system"] == "truecolor" and not cfg["no_color"]
@@ -256,6 +257,13 @@ class Histories(Part):
                 suspended = True
                 ctx.cls("capture")
                 last_was_ctl = False
+                # a capture object keeps its own result: read again later (after other capture blocks) it must say the same
+                for old_cap, old_text in caps:
+                    again = sut(old_cap.get)
+                    if again != old_text:
+                        ctx.violation("capture", "C15/capture/result-changed", "an earlier capture's get() returned %r at first and %r after a later capture block" % (old_text[:200], again[:200]))
+                        return
+                caps.append((cap, got))
             elif k in ("export_text", "export_html"):
                 clear = op[1]
                 flag = op[2]
